@@ -16,7 +16,7 @@ func E1(rc *RC, files func(string) bool, floor int) {
 	rc.S.Declare("E1", "no use of a call's value result inside the err != nil branch of that same call (inverted-condition pattern)", floor)
 	word := func(s, w string) bool { return ir.ReplaceWord(s, w, "\x00") != s }
 	errCtor := regexp.MustCompile(`(errors|fmt)\.[A-Za-z]+\((?:[^()]|\([^()]*\))*\)`)
-	for _, fi := range rc.P.SortedFuncs() {
+	for _, fi := range rc.P.AnalysisFuncs() {
 		if fi.Pkg != rc.P.Root || fi.Decl.Body == nil || (files != nil && !files(fi.File)) {
 			continue
 		}
